@@ -326,6 +326,6 @@ func runC08(c *Ctx) {
 		}
 		cfgs = sel
 	}
-	finishHist(c, "C08", runHists(c, cfgs, hists), "every refresh failure kind (connection answered with an error body, garbage, bad signature, unknown signer, critical extension, staging store cannot be created, consumer failure at event k) between an old and a new list followed by a successful refresh; every sequence of refresh outcomes up to length "+fmt.Sprint(depth)+"; probes old-only / new-only / common / unlisted after every step; both backends; plus 12 observer goroutines shaking hands while one location is refreshed through 12 (thorough: 60) versions with failing refreshes in between: a serial on every list is always revoked, one on no list always accepted, a version's serial never returns once a newer version was observed")
+	finishHist(c, "C08", runHists(c, cfgs, hists), "every refresh failure kind (connection answered with an error body, garbage, bad signature, unknown signer, critical extension, staging store cannot be created, consumer failure at event k) between an old and a new list followed by a successful refresh; every sequence of refresh outcomes up to length "+fmt.Sprint(depth)+"; probes old-only / new-only / common / unlisted after every step; both backends; plus 16 observer goroutines shaking hands while one location is refreshed through 36 (thorough: 200) versions with failing refreshes in between: a serial on every list is always revoked, one on no list always accepted, a version's serial never returns once a newer version was observed")
 	c08Concurrent(c)
 }
